@@ -51,8 +51,26 @@ async fn one(committed: &[(u64, u64)], pending: &[(u64, u64)], cached: bool, fai
         // a commit must end with the directory's epoch record
         m.set(DbRecord::Azks(DbRecord::build_azks(9, 7))).await.unwrap();
         let inside = m.get_user_state_versions(&users, flag).await;
+        let mut single_in = Vec::new();
+        for u in users.iter() {
+            single_in.push(m.get_user_state(u, flag).await.ok());
+        }
         m.commit_transaction().await.unwrap();
         let after = m.get_user_state_versions(&users, flag).await;
+        for (i, u) in users.iter().enumerate() {
+            let b = m.get_user_state(u, flag).await.ok();
+            if single_in[i] != b {
+                fails.push(format!(
+                    "get_user_state({:?}) for a user with committed (epoch, version) {:?} and pending {:?}{}: inside the transaction {:?}, after commit {:?}",
+                    flag,
+                    committed,
+                    pending,
+                    if cached { " (cache on)" } else { "" },
+                    single_in[i].as_ref().map(|s| (s.epoch, s.version, s.value.0.clone())),
+                    b.as_ref().map(|s| (s.epoch, s.version, s.value.0.clone()))
+                ));
+            }
+        }
         match (inside, after) {
             (Ok(a), Ok(b)) => {
                 for u in users.iter() {
